@@ -13,6 +13,40 @@ objs=[f*inner(grad(u),grad(v))*dx + u*v*ds]
 '''
 
 
+class _Stop(Exception):
+    pass
+
+
+def real_names(jit, forms, exprs, options, args, dbg):
+    """module / object names as the REAL entry points compute them (compile_forms / compile_expressions are
+    called with the request's own arguments and stopped where they look the module up in the cache)"""
+    import tempfile
+    seen = {}
+
+    def stop(module_name, object_names, cache_dir, timeout):
+        seen["module"] = module_name
+        seen["objects"] = list(object_names)
+        raise _Stop()
+    saved = jit.get_cached_module
+    jit.get_cached_module = stop
+    d = tempfile.mkdtemp(prefix="vfsigc_")
+    try:
+        try:
+            if forms:
+                jit.compile_forms(list(forms), options=dict(options or {}), cache_dir=d,
+                                  cffi_extra_compile_args=list(args), cffi_debug=dbg)
+            else:
+                jit.compile_expressions(list(exprs), options=dict(options or {}), cache_dir=d,
+                                        cffi_extra_compile_args=list(args), cffi_debug=dbg)
+        except _Stop:
+            pass
+    finally:
+        jit.get_cached_module = saved
+        import shutil
+        shutil.rmtree(d, ignore_errors=True)
+    return seen
+
+
 def main():
     job = pickle.load(open(sys.argv[1], "rb"))
     import hashlib
@@ -48,22 +82,30 @@ def main():
             p = ffcx.options.get_options(dict(options))
             args = case.get("cffi_args", [])
             dbg = case.get("debug", False)
-            tag = jit._compute_option_signature(p) + jit._compilation_signature(args, dbg)
             forms = [o for o in objs if not isinstance(o, tuple)]
             exprs = [o for o in objs if isinstance(o, tuple)]
-            captured.clear()
+            # names: always through the real entry points
             if forms:
-                sig = ffcx.naming.compute_signature(forms, tag)
-                r["module"] = "libffcx_forms_" + sig
-                r["preimage"] = captured[-1].decode("utf-8")
-                r["fields"] = ["".join(f.signature() for f in forms), str(ffcx.__version__),
-                               ffcx.codegeneration.get_signature(), "form", tag]
-                r["form_names"] = [ffcx.naming.form_name(f, i, r["module"]) for i, f in enumerate(forms)]
+                captured.clear()
+                rn = real_names(jit, forms, [], options, args, dbg)
+                r["module"] = rn["module"]
+                r["form_names"] = rn["objects"]
+                r["preimage"] = captured[0].decode("utf-8") if captured else ""
             if exprs:
-                sig = ffcx.naming.compute_signature(exprs, tag)
-                r["emodule"] = "libffcx_expressions_" + sig
-                r["epreimage"] = captured[-1].decode("utf-8")
-                r["expr_names"] = [ffcx.naming.expression_name(e, r["emodule"]) for e in exprs]
+                captured.clear()
+                rn = real_names(jit, [], exprs, options, args, dbg)
+                r["emodule"] = rn["module"]
+                r["expr_names"] = rn["objects"]
+                r["epreimage"] = captured[0].decode("utf-8") if captured else ""
+            # the fields of the modelled encoding (tie of Naming.v): how jit.py composes the tag today
+            try:
+                tag = jit._compute_option_signature(p) + jit._compilation_signature(args, dbg)
+                if forms:
+                    r["fields"] = ["".join(f.signature() for f in forms), str(ffcx.__version__),
+                                   ffcx.codegeneration.get_signature(), "form", tag]
+            except BaseException as e:  # noqa: BLE001
+                r["fields_error"] = f"{type(e).__name__}: {e}"[:200]
+                r.pop("preimage", None)
             if case.get("object_names"):
                 cap = ffx.compile_case(objs, options, prefix=r.get("module", r.get("emodule", "p")))
                 names = [fi.name for fi in cap.ir.forms]
